@@ -527,8 +527,11 @@ class Sim(object):
         from tornado.ioloop import IOLoop
         self._saved = [(P, "Popen", P.Popen), (W, "os", W.os), (A, "os", A.os), (W, "time", W.time),
                        (A, "time", A.time), (P, "time", P.time), (W, "tornado_sleep", W.tornado_sleep),
-                       (A, "tornado_sleep", A.tornado_sleep), (A, "select", A.select)]
+                       (A, "tornado_sleep", A.tornado_sleep), (A, "select", A.select), (W, "randint", W.randint)]
         A.select = _FakeSelect(self)
+        # the jitter added to max_age is a parameter of the model, fixed to the least value the code asks for
+        # (`randint(0, max_age_variance)`: nothing is added) — a worker is never expired before max_age
+        W.randint = lambda a, b: a
         P.Popen = make_popen(self.k)
         W.os = _FakeOs(self.k)
         A.os = _FakeOs(self.k)
@@ -585,7 +588,7 @@ class Sim(object):
             singleton=w.get("singleton", False), respawn=w.get("respawn", True),
             autostart=w.get("autostart", True), max_retry=w.get("max_retry", 5),
             send_hup=w.get("send_hup", False), on_demand=w.get("on_demand", False),
-            max_age=w.get("max_age", 0), max_age_variance=0, hooks=hooks or None, loop=self.loop)
+            max_age=w.get("max_age", 0), max_age_variance=w.get("max_age_variance", 0), hooks=hooks or None, loop=self.loop)
 
     def teardown(self):
         for mod, name, val in self._saved:
